@@ -2,7 +2,7 @@
 from harness import exchange_check as xc
 
 TRUSTED_EXTRA = xc.TRUSTED_EXTRA
-PLAN = [('mixed', 'medium', 50, 1200), ('limitpartial', 'medium', 60, 1500), ('ample', 'small', 60, 1500), ('ample', 'long', 4, 60), ('reindexclose', 'small', 3, 30), ('reconfig', 'small', 30, 400)]
+PLAN = [('mixed', 'medium', 50, 1200), ('limitpartial', 'medium', 60, 1500), ('ample', 'small', 60, 1500), ('ample', 'long', 4, 60), ('reindexclose', 'small', 3, 30), ('reconfig', 'small', 30, 400), ('twovenues', 'small', 30, 400), ('finegrid', 'small', 12, 100)]
 
 
 def run(chk):
